@@ -17,7 +17,7 @@ from mzverif.core import Discard, Sub, call, require
 
 ID = "C08"
 LEVEL = "exploration"
-TECHNIQUE = "model-based testing over generated filter sequences: every filter application is mirrored on an in-memory list model (exact rational percentile, explicit duplicate rules, provenance bookkeeping) and compared after each step; hand datasets with mixed array provenance, generated datasets of 99..130 mazes, int8 endpoints up to 2(n-1) apart; config-driven path compared differentially with by-hand application"
+TECHNIQUE = "model-based testing over generated filter sequences: every filter application is mirrored on an in-memory list model (exact rational percentile, explicit duplicate rules, provenance bookkeeping) and compared after each step; hand datasets with mixed array provenance or loaded back from any of the three storage formats, generated datasets of 99..130 mazes, int8 endpoints up to 2(n-1) apart; config-driven path compared differentially with by-hand application"
 RULE = (
     "case = (hand-built dataset with exact / near duplicates at chosen positions or generated dataset, sequence of filter operations "
     "with parameters). After every operation: result == model (mazes in order), input untouched, config provenance, maze count, "
